@@ -14,7 +14,13 @@ func pairs(t *rt.Thread, c *rt.GoCont) (rt.Cont, error) {
 		if err != nil {
 			return nil, err
 		}
-		t.Push(next, res.Etc()...)
+		// pairs returns (at most) the first three results of the call to
+		// __pairs.
+		results := res.Etc()
+		if len(results) > 3 {
+			results = results[:3]
+		}
+		t.Push(next, results...)
 		return next, nil
 	}
 	t.Push(next, rt.FunctionValue(nextGoFunc), coll, rt.NilValue)
